@@ -141,6 +141,11 @@ def run(chk):
         prepared = []
         for k in range(nsch):
             desc = c13_desc(chk.rng, nstructs, aligned=(k % 2 == 0))
+            if k % 2 == 1 or not quick:
+                # text beyond 7-bit ASCII somewhere in the schema (here: a binding's extension field, which travels in the reflection
+                # binary ahead of most of the record): every character is one byte there, and what follows must stay aligned
+                desc["impls"].append({"protocol": "uart", "type": desc["structs"][0]["name"], "name": "Note",
+                                      "fields": [("note", chk.rng.choice(["temperature in \u00b0C", "\u00b5s", "\u00e9tat: pr\u00eat", "\u00b1 5 %"]))], "signals": []})
             text = gen_schema.render(desc)
             fcp = serde_run.parse(text).unwrap()
             outdir = f"{work}/s{k}"
